@@ -1,57 +1,139 @@
 #!/usr/bin/env python3
-"""Self-test: apply each deliberate property-breaking patch in mutants/<ID>/*.diff to /repo,
-run the property's quick check, require exit 1 with a VIOLATION line, undo the patch.
+"""Self-test: show that the checks report deliberate property-breaking changes.
 
-usage: tools/selftest.py [ID ...]      (default: all)
-       tools/selftest.py --seeded [id ...]   (patches under seeded/<id>/patch.diff, property from meta.json)
+Each patch is applied to a *scratch git worktree* of /repo's HEAD (under $VERIF_SCRATCH, default
+/tmp/verif-selftest; never /repo itself), the property's check is run against that tree
+(VERIF_REPO=<worktree>, build output / evidence / replays redirected with VERIF_OUT), exit 1 with a
+VIOLATION line is required, and the worktree with all its build output is removed.
+
+usage: tools/selftest.py [-j N] [--tier quick|thorough] [ID ...]     patches in mutants/<ID>/*.diff (default: all)
+       tools/selftest.py [-j N] --seeded [id ...]                     seeded/<id>/patch.diff, checks from meta.json
+       tools/selftest.py --verify-seeded <id>                         baseline suite passes with the patch; demo fails with
+                                                                     it and passes without it
 """
-import glob, json, os, subprocess, sys, time
+import glob, json, os, shutil, subprocess, sys, time
+from concurrent.futures import ThreadPoolExecutor
+
 V = os.path.dirname(os.path.dirname(os.path.abspath(__file__)))
 REPO = "/repo"
+SCRATCH = os.environ.get("VERIF_SCRATCH", "/tmp/verif-selftest")
+GOENV = "GOFLAGS=-mod=mod GOPROXY=off GOSUMDB=off GOTOOLCHAIN=local"
+
 
 def sh(cmd, **kw):
     return subprocess.run(cmd, shell=True, stdout=subprocess.PIPE, stderr=subprocess.STDOUT, text=True, **kw)
 
-def clean():
-    sh("git -C %s checkout -- . && git -C %s clean -fdq -- v3/lints v3/lint v3/util v3/profiles" % (REPO, REPO))
 
-def run_one(prop, patch, tier="quick"):
-    assert sh("git -C %s status --porcelain --untracked-files=no" % REPO).stdout.strip() == "", "/repo not clean"
-    r = sh("git -C %s apply %s" % (REPO, patch))
-    if r.returncode != 0:
-        return "APPLY-FAILED " + r.stdout.strip()[:200]
-    try:
-        t0 = time.time()
-        b = sh("cd %s/v3 && GOFLAGS=-mod=mod GOPROXY=off GOSUMDB=off GOTOOLCHAIN=local go build ./... 2>&1 | tail -3" % REPO)
+class Worktree:
+    def __init__(self, tag):
+        self.dir = os.path.join(SCRATCH, tag)
+        self.out = os.path.join(SCRATCH, tag + ".out")
+
+    def __enter__(self):
+        os.makedirs(SCRATCH, exist_ok=True)
+        self.cleanup()
+        r = sh("git -C %s worktree add --detach %s HEAD -q" % (REPO, self.dir))
+        assert r.returncode == 0, r.stdout
+        # uncommitted edits of /repo's tracked files are part of "the current tree": carry them over
+        d = sh("git -C %s diff HEAD" % REPO).stdout
+        if d.strip():
+            p = subprocess.run(["git", "-C", self.dir, "apply"], input=d, text=True)
+            assert p.returncode == 0
+        os.makedirs(self.out, exist_ok=True)
+        return self
+
+    def cleanup(self):
+        sh("git -C %s worktree remove --force %s" % (REPO, self.dir))
+        shutil.rmtree(self.dir, ignore_errors=True)
+        shutil.rmtree(self.out, ignore_errors=True)
+        sh("git -C %s worktree prune" % REPO)
+
+    def __exit__(self, *a):
+        self.cleanup()
+
+
+def run_check(wt, prop, tier):
+    env = dict(os.environ, VERIF_REPO=wt.dir, VERIF_OUT=wt.out)
+    t0 = time.time()
+    r = subprocess.run([os.path.join(V, "check"), prop, "--tier", tier], cwd=V, env=env, stdout=subprocess.PIPE,
+                       stderr=subprocess.STDOUT, text=True)
+    lines = r.stdout.splitlines()
+    viol = [l for l in lines if l.startswith("VIOLATION")]
+    detail = [l for l in lines if l.startswith("  key=")]
+    status = "DETECTED" if (r.returncode == 1 and viol) else "MISSED(rc=%d)" % r.returncode
+    tail = detail[0][:170] if detail else (lines[-1][:200] if lines else "")
+    return "%s in %.0fs %s" % (status, time.time() - t0, tail)
+
+
+def run_one(tag, prop, patch, tier="quick"):
+    with Worktree(tag) as wt:
+        r = sh("git -C %s apply %s" % (wt.dir, patch))
+        if r.returncode != 0:
+            return "APPLY-FAILED " + r.stdout.strip()[:200]
+        b = sh("cd %s/v3 && %s go build ./... 2>&1 | tail -3" % (wt.dir, GOENV))
         if b.stdout.strip():
             return "DOES-NOT-COMPILE " + b.stdout.strip()[:300]
-        r = sh("cd %s && ./check %s --tier %s" % (V, prop, tier))
-        viol = [l for l in r.stdout.splitlines() if l.startswith("VIOLATION")]
-        detail = [l for l in r.stdout.splitlines() if l.startswith("  key=")]
-        status = "DETECTED" if (r.returncode == 1 and viol) else "MISSED(rc=%d)" % r.returncode
-        return "%s in %.0fs %s" % (status, time.time() - t0, (detail[0][:160] if detail else r.stdout.strip().splitlines()[-1][:200] if r.stdout.strip() else ""))
-    finally:
-        clean()
+        return run_check(wt, prop, tier)
+
+
+def verify_seeded(sid):
+    """the change compiles, the repository's own suite passes with it, the demonstration fails with it and passes without."""
+    d = os.path.join(V, "seeded", sid)
+    meta = json.load(open(os.path.join(d, "meta.json")))
+    with Worktree("verify-" + sid) as wt:
+        demo_dir = os.path.join(wt.dir, meta["demo_dir"])
+        os.makedirs(demo_dir, exist_ok=True)
+        for f in meta.get("demo_files", ["demo_test.go"]):
+            shutil.copy(os.path.join(d, f), demo_dir)
+        cmd = "cd %s && %s %s" % (demo_dir, GOENV, meta["demo_cmd"])
+        clean = sh(cmd)
+        r = sh("git -C %s apply %s" % (wt.dir, os.path.join(d, "patch.diff")))
+        if r.returncode != 0:
+            return "APPLY-FAILED"
+        broken = sh(cmd)
+        for f in meta.get("demo_files", ["demo_test.go"]):
+            os.remove(os.path.join(demo_dir, f))
+        suite = sh("cd %s/v3 && %s go test -vet=off -count=1 ./... 2>&1 | grep -v '^ok\\|no test files' | head -20" % (wt.dir, GOENV))
+        return "demo-clean-rc=%d demo-patched-rc=%d suite=%s" % (clean.returncode, broken.returncode,
+                                                                 "PASS" if not suite.stdout.strip() else "FAIL: " + suite.stdout[:400])
+
 
 def main():
     args = sys.argv[1:]
-    results = []
+    jobs, tier = 1, "quick"
+    while args and args[0] in ("-j", "--tier"):
+        if args[0] == "-j":
+            jobs = int(args[1])
+        else:
+            tier = args[1]
+        args = args[2:]
+    work = []
+    if args and args[0] == "--verify-seeded":
+        for sid in args[1:] or sorted(os.listdir(os.path.join(V, "seeded"))):
+            print("%-28s %s" % (sid, verify_seeded(sid)), flush=True)
+        return 0
     if args and args[0] == "--seeded":
         ids = args[1:] or sorted(os.listdir(os.path.join(V, "seeded")))
         for sid in ids:
             meta = json.load(open(os.path.join(V, "seeded", sid, "meta.json")))
             for prop in meta.get("checks", [meta["property"]]):
-                res = run_one(prop, os.path.join(V, "seeded", sid, "patch.diff"))
-                print("%-28s %-4s %s" % (sid, prop, res), flush=True)
-                results.append(res)
+                work.append(("%-28s %-4s" % (sid, prop), "s-%s-%s" % (sid, prop), prop, os.path.join(V, "seeded", sid, "patch.diff")))
     else:
         props = args or sorted(os.listdir(os.path.join(V, "mutants")))
         for prop in props:
             for patch in sorted(glob.glob(os.path.join(V, "mutants", prop, "*.diff"))):
-                res = run_one(prop, patch)
-                print("%-4s %-48s %s" % (prop, os.path.basename(patch), res), flush=True)
-                results.append(res)
+                name = os.path.basename(patch)
+                work.append(("%-4s %-48s" % (prop, name), "m-%s-%s" % (prop, name[:-5]), prop, patch))
+    results = []
+
+    def job(w):
+        res = run_one(w[1], w[2], w[3], tier)
+        print(w[0], res, flush=True)
+        return res
+    with ThreadPoolExecutor(max_workers=jobs) as ex:
+        results = list(ex.map(job, work))
     return 0 if all(r.startswith("DETECTED") for r in results) else 1
+
 
 if __name__ == "__main__":
     sys.exit(main())
